@@ -23,6 +23,7 @@ RULE = (
     "stream has >= 2 node spans; distinct = (program shape, variant)."
     ' Cache backends whose k-th write OR k-th lookup fails.'
     ' Two or three concurrent top-level calls on one AsyncRunner, each with its own processor (natural lock-step schedule and controlled schedules): every processor gets the whole tree of its own call and nothing else.'
+    ' Calls with an option value the library refuses (on_missing outside its three values), raise and continue mode: nothing delivered, no body run. Node bodies that re-seed the global PRNG, executed several times in one call (loop, map items).'
     ' Also: map() with max_concurrency 0 / -1 (a rejected call or a whole span tree, never a mixture); two further processors that compare equal to each other, each owed the whole stream and one shutdown; a nested graph pausing in the step of a failing sibling.'
 )
 ASSUMPTIONS = ["PAUSED calls are outside the statement and are counted, not judged"]
@@ -272,6 +273,20 @@ def variants(ctx, fam):
             o = core.execute(core.with_async(spec, runner == "async", rng), inputs, runner, processors=[(Rec if runner == "sync" else ARec)("p")], select=sel, on_missing="error", error_handling=rng.choice(["raise", "continue"]))
             check_stream(ctx, o, spec, "p", f"{runner}-on_missing_error", {**case, "select": sel})
             nstreams += 1
+    # rejected call: an option value the library refuses (on_missing outside ignore / warn / error). Whether the refusal
+    # is raised or, with collected errors, comes back as the result's error: the call was rejected, so nothing was
+    # delivered and no body ran
+    if rng.random() < 0.5:
+        for runner in ("sync", "async"):
+            for mode in ("raise", "continue"):
+                o = core.execute(core.with_async(spec, runner == "async", rng), inputs, runner, processors=[(Rec if runner == "sync" else ARec)("p")], on_missing="raise", error_handling=mode, **kw)
+                ctx.obs["invalid_option_calls"] += 1
+                err = o.exc if o.exc is not None else o.error
+                if isinstance(err, ValueError) and "on_missing" in str(err):
+                    evs_ = rt.events_of(o.rec, "p")
+                    bodies = o.rec.count("enter")
+                    if evs_ or bodies or any(e[0] == "shutdown" for e in o.rec.ev):
+                        ctx.violation("C12:rejected-call-emitted", f"{runner}/{mode}: the call was refused for its option value ({err}), yet {len(evs_)} events were delivered and {bodies} node bodies ran", {**case, "option": "on_missing='raise'", "mode": mode})
     # rejected call: one required input omitted
     if inputs:
         k = rng.choice(sorted(inputs))
@@ -465,6 +480,17 @@ def run(ctx):
             variants(ctx, dfam)
         ctx.case({"directed": "unproduced-selected-output"}, True)
         map_call(ctx, -1, force_n=0)
+        # directed: node bodies that re-seed the process-global PRNG with a constant, executed several times within one
+        # top-level call (map items, loop iterations, a nested graph): span ids stay unique within the trace
+        from hgmon import loops
+
+        t = loops.counter_loop(3, 0, 1, "route", True)
+        lspec = copy.deepcopy(t["spec"])
+        next(ns for ns in lspec["nodes"] if ns["name"] == "b0")["beh"] = ["reseed_inc", "count"]
+        variants(ctx, {"family": "loop", "spec": lspec, "inputs": dict(t["inputs"]), "kw": {}})
+        mspec = {"name": "outer", "nodes": [{"k": "sub", "name": "inner", "prog": {"name": "inner", "nodes": [{"k": "fn", "name": "draw", "params": [{"n": "mx"}], "outs": ["drawn"], "beh": ["reseed", "mx"]}, {"k": "fn", "name": "use", "params": [{"n": "drawn"}], "outs": ["used"]}], "bind": {}}, "map": {"over": ["mx"], "mode": "zip", "err": "raise"}}], "bind": {}}
+        variants(ctx, {"family": "mapped", "spec": mspec, "inputs": {"mx": ["a", "b", "c"]}, "kw": {}})
+        ctx.case({"directed": "reseeding-bodies"}, True)
     for i in range(n):
         if i % 6 == 5:
             map_call(ctx, i)
